@@ -14,6 +14,7 @@ mod c01;
 mod c02;
 mod c05;
 mod c07;
+mod c08;
 mod c09;
 mod c10;
 mod c12;
@@ -42,6 +43,7 @@ fn main() {
         "C02" => c02::run(&mut out, thorough, seed),
         "C05" => c05::run(&mut out, thorough, seed),
         "C07" => c07::run(&mut out, thorough, seed),
+        "C08" => c08::run(&mut out, thorough, seed),
         "C09" => c09::run(&mut out, thorough, seed),
         "C10" => c10::run(&mut out, thorough, seed),
         "C11" => c11expr::run(&mut out, thorough, seed),
